@@ -138,6 +138,44 @@ Definition file_lines (pkg : bytes) (file : N) (cs : list component) : list line
 Definition flatten (pkg : bytes) (cs : list component) : list line :=
   file_lines pkg 0 cs ++ file_lines pkg 1 cs ++ file_lines pkg 2 cs.
 
+(* 16: the leading comment of an element that is not a field - [element full name; comment] - after all
+   structural lines, in descriptor order: the messages of the main file (events: the nested message of
+   the event oneof; objects / oneofs of the block), then its enums (status values; the block's enums and
+   their options).  Nothing else carries a comment: generated messages, services and methods have none *)
+Fixpoint zip_notes {A} (l : list A) (d : list bytes) : list (A * bytes) :=
+  match l with
+  | [] => []
+  | x :: r => (x, match d with y :: _ => y | [] => [] end) :: zip_notes r (match d with _ :: t => t | [] => [] end)
+  end.
+Definition note_line (name d : bytes) : list line :=
+  match d with [] => [] | _ => [(16, [name; comment_text d], [])] end.
+Definition msg_notes (e : entity) : list line :=
+  let pkg := e_pkg e in
+  flat_map (fun p => note_line (pkg ++ [46] ++ event_type_name e ++ [46] ++ ev_name (fst p)) (snd p))
+           (zip_notes (e_events e) (n_event_desc (e_notes e)))
+  ++ flat_map (fun p => match fst p with
+                        | SObject n _ => note_line (pkg ++ [46] ++ n) (snd p)
+                        | SOneof n _ => note_line (pkg ++ [46] ++ n) (snd p)
+                        | SEnum _ _ => [] end)
+              (zip_notes (e_schemas e) (n_schema_desc (e_notes e))).
+Definition option_descs (e : entity) (i : nat) : list bytes := nth i (n_option_desc (e_notes e)) [].
+Fixpoint enum_schema_notes (e : entity) (i : nat) (l : list (eschema * bytes)) : list line :=
+  match l with
+  | [] => []
+  | (SEnum n opts, d) :: r =>
+      note_line (e_pkg e ++ [46] ++ n) d
+      ++ flat_map (fun p => note_line (e_pkg e ++ [46] ++ n ++ [46] ++ status_value_name (to_screaming_snake n ++ [95]) (fst p)) (snd p))
+                  (zip_notes opts (option_descs e i))
+      ++ enum_schema_notes e (S i) r
+  | _ :: r => enum_schema_notes e (S i) r
+  end.
+Definition enum_notes (e : entity) : list line :=
+  let en := e_pkg e ++ [46] ++ component_name e (bs "Status") in
+  flat_map (fun p => note_line (en ++ [46] ++ status_value_name (status_prefix e) (fst p)) (snd p))
+           (zip_notes (e_status e) (n_status_desc (e_notes e)))
+  ++ enum_schema_notes e 0 (zip_notes (e_schemas e) (n_schema_desc (e_notes e))).
+Definition notes (es : list entity) : list line := flat_map msg_notes es ++ flat_map enum_notes es.
+
 (* the client API's StateEntity:
    8: [name; full name; schema name; query service] ; 9: primary keys ; 10: command services ;
    11: events ; 12: query method [name; path] [verb] ; 13: command method [service; name; path] [verb] *)
@@ -180,7 +218,7 @@ Definition c17_check (c : c17case) : bool :=
   match c with
   | EC es ok errc lines cok clines =>
       match compile_file es with
-      | Ok cs => ok && list_eqb line_eqb (flatten (file_pkg_of es) cs) lines
+      | Ok cs => ok && list_eqb line_eqb (flatten (file_pkg_of es) cs ++ notes es) lines
                  && Bool.eqb cok (client_accepts cs)
                  && (negb cok || (list_eqb line_eqb (flat_map (fun e => client_lines (client_view e)) es) clines
                                   && grouping_ok es cs))
@@ -202,7 +240,7 @@ Definition c17_diff (c : c17case) :=
   match c with
   | EC es ok _ lines cok clines =>
       match compile_file es with
-      | Ok cs => match first_diff 0 (flatten (file_pkg_of es) cs) lines with
+      | Ok cs => match first_diff 0 (flatten (file_pkg_of es) cs ++ notes es) lines with
                  | Some d => Some d
                  | None => first_diff 1000 (flat_map (fun e => client_lines (client_view e)) es) clines
                  end
